@@ -4,7 +4,7 @@ from __future__ import annotations
 import ast
 from typing import List, Set
 
-from ..an import avoiding_path, cut, flows_from_calls, is_method_call, yields_at
+from ..an import avoiding_path, cut, flows_from_calls, is_method_call, value_alts, yields_at
 from ..cfg import calls_at, node_exprs, subscripts_at
 from ..core import Checker
 from ..loader import AnalysisError, Func, norm, walk_expr, walk_own
@@ -174,6 +174,20 @@ def _accessors(ck: Checker) -> None:
         okp = okp and bool(lp)
     ck.require(okp, "C17.accessors", it, pt[0] if pt else it.node, "iterating below a prefix first loads the directory entry that contains the prefix",
                "iteritems(prefix) does not load the (still unloaded) directory containing the prefix: the keys below it are missing (KeyError swallowed by callers)", construct="if prefix: load longest_prefix(prefix)")
+    el = prog.func("index.index", "DataIndex._ensure_loaded")
+    gel = ck.cfg(el)
+    lds_el = [(n, c) for n in gel.nodes.values() for c in calls_at(n) if is_method_call(c, "_load") and norm(c.func.value) == "self"]
+    for n, c in lds_el:
+        ent = c.args[1] if len(c.args) > 1 else None
+        oke = False
+        if ent is not None:
+            for alt in value_alts(gel, n, ent, depth=3):
+                if isinstance(alt, ast.Call) and is_method_call(alt, "get", "__getitem__") and norm(alt.func.value) == "self":
+                    oke = True
+                if isinstance(alt, ast.Subscript) and norm(alt.value) == "self":
+                    oke = True
+        ck.require(oke, "C17.accessors", el, n, "the entry to load is obtained through the index's own lookup (which loads an unloaded ancestor first)",
+                   "_ensure_loaded reads the entry from the raw trie: below a still unloaded ancestor directory the entry is not found and listing it fails / is empty")
     ls = prog.func("index.index", "DataIndex.ls")
     g = ck.cfg(ls)
     ens = {n.id for n in g.nodes.values() for c in calls_at(n) if is_method_call(c, "_ensure_loaded", "_load") and c.args and norm(c.args[0]) == "root_key"}
